@@ -242,7 +242,7 @@ def one_case(cs, idx, counters):
                 boot_req.append((nm, lk, False))
         hidden_names = []
         if opts['hide']:
-            files = [r for r, (k, _) in desc.items() if k == 'file' and '/' not in r and r not in ('bootimg.bin', 'loader')]
+            files = [r for r, (k, _) in desc.items() if k == 'file' and '/' not in r and r not in ('bootimg.bin', 'loader') and not r.startswith('efi')]
             if files:
                 # several patterns through the different spellings of the option: each one counts
                 hidden_names = files[:rng.choice([1, 2, 3])]
